@@ -155,6 +155,7 @@ def run(vc):
             o = rec[0]
             p.prove("LogSpline:built-from-log-points", z3.eq(to_z(o.x.e), to_z(slog10(x.e))) and z3.eq(to_z(o.y.e), to_z(ly)))
     vc.explore("LogSplineCharacteristic", h_log, max_paths=20)
+    _standins(vc)
 
 
 def _same_arr(a, b):
@@ -178,6 +179,17 @@ def _same_dict(state, want):
         elif s != v:
             return False
     return True
+
+
+def _standins(vc):
+    if not hasattr(vc, "native_standins"):
+        vc.native_standins = []
+    vc.native_standins.append(dict(
+        name="characteristic objects on fixed data sets",
+        bound="8 random data sets (2..9 points, monotone / arbitrary) x 6 interpolator variants: support points, range, JSON round trip after an "
+              "evaluation; from_gradient with rising and falling gradients; equality with the serialised copy after an evaluation; support "
+              "points replaced after an evaluation (4 classes)",
+        script="from replaylib import run_all\nfrom replaylib.characteristics import main, main_more\nrun_all(main, main_more)\n", timeout=600))
 
 
 def classify(ob, model):
